@@ -36,6 +36,17 @@ fn gen_c15(rng: &mut Rng) -> AG {
     for t in g.tokens.iter_mut() {
         t.name = t.name.replace([' ', '\'', '"'], "_");
     }
+    // every third grammar: two token names that differ only in case (their N_<NAME> constants in the
+    // generated lexer module collide, so whatever is emitted for them must not depend on map order)
+    if rng.chance(1, 3) && g.tokens.len() >= 2 && !g.tokens.iter().any(|t| t.name.eq_ignore_ascii_case("kw")) {
+        let a = rng.below(g.tokens.len());
+        let mut b = rng.below(g.tokens.len());
+        if b == a {
+            b = (a + 1) % g.tokens.len();
+        }
+        g.tokens[a].name = "kw".to_string();
+        g.tokens[b].name = "KW".to_string();
+    }
     g
 }
 
